@@ -157,6 +157,7 @@ PROPS = {
                         "the width theorems are about canonical styled text (what servitor's own style layer produces); hostile strings are covered by the correspondence check only"],
     },
     "C17": {
+        "lean_modules": ["Props.Gen17"],
         "groups": [{"name": "C17", "quick": 8000, "thorough": 300000}],
         "rule": "JSON documents with null/bool/number/string/array/object under keys k, m, z (numbers from an edge pool around 0, +-1, 2^53, 2^63, 2^64, subnormals, huge exponents, random bit patterns and integers around powers of two; strings with control characters, timestamps, URLs, media types) x every accessor x present/absent keys; "
                 "non-trivial = the key is present in the document; distinct by op content",
@@ -178,7 +179,7 @@ PROPS = {
                         "Go int overflow of feed bounds is out of scope"],
     },
     "C19": {
-        "lean_modules": ["Props.Facts19"],
+        "lean_modules": ["Props.Facts19", "Props.Facts19b"],
         "groups": [{"name": "C19", "quick": 3000, "thorough": 60000},
                    {"name": "C19x", "quick": 4000, "thorough": 16777216, "workers": 16}],
         "rule": "hexToAnsi on valid, near-valid (one bad digit, signs, underscores, wrong length, non-ASCII digits) and random strings; configuration files generated value-first (colours, preload_amount/timeout_seconds/cache_size from {-1000..1000}, hooks of 0..3 arguments, unknown keys/tables, syntax errors, missing file) "
@@ -305,10 +306,10 @@ MANIFEST_TEXT = {
         "technique": "Lean 4 proof (induction over the wrap state machine) + differential correspondence",
     },
     "C17": {
-        "text": "Lean theorems for all JSON values, keys and accessors: each accessor returns exactly absent (missing/null/empty), wrong (other type/unparseable/out of range) or the faithful value; GetNumber returns n iff the double's exact value (computed from its bit pattern with integer arithmetic) is the natural number n < 2^64. Tied to object.go/mime.go by differential correspondence on values decoded by the real encoding/json; number exactness is also checked on every implementation output.",
+        "text": "Lean theorems for all JSON values, keys and accessors: each accessor returns exactly absent (missing/null/empty), wrong (other type/unparseable/out of range) or the faithful value; GetNumber returns n iff the double's exact value (computed from its bit pattern with integer arithmetic) is the natural number n < 2^64. Tied to object.go twice: GetAny, GetString, GetObject, GetList, GetTime, GetURL, GetMediaType and the getPrimitive instances they use are translated to Lean on every run (extract/go2lean3.go -> Generated/GoCode.lean) and proved equal to the model's accessors (Props/Gen17.lean); and (all accessors, GetNumber and GetMarkup included, and mime.go) by differential correspondence on values decoded by the real encoding/json; number exactness, empty-means-absent and sanitisation are also checked on every implementation output.",
         "design_ref": "DESIGN.md §5 C17",
         "note": "Trusted: Lean kernel; correspondence check (testing); encoding/json, time.Parse, url.Parse as parameters/oracle tables.",
-        "technique": "Lean 4 proof (case analysis over a JSON datatype, bit-exact IEEE-754 model) + differential correspondence",
+        "technique": "Lean 4 proof (case analysis over a JSON datatype, bit-exact IEEE-754 model) over a model proved equal to the Lean translation of the accessors regenerated on every run + differential correspondence",
     },
     "C18": {
         "text": "Refinement theorems in Lean: every history op sequence keeps the invariant, never panics and denotes what a zipper computes; every feed operation preserves the representation of a two-sided sequence, lookups/containment/parent-child agree with positions, append/prepend never move items, moves stay in bounds. Tied to history.go/feed.go twice: both files are translated to Lean on every run (extract/go2lean.go -> Generated/GoCode.lean) and every method of the generated code is proved equal to the model's (Props/Gen18.lean); and by differential correspondence after every step, exhaustive up to a length bound.",
@@ -338,7 +339,7 @@ MANIFEST_TEXT = {
         "text": "Lean theorems for all prefix/centred/suffix texts and all heights >= 1: CenterVertically returns exactly h lines, centred as specified; ReplaceLastLine keeps the height for texts of >= 2 lines; SetLength is newline-free. Tied to ansi.go twice: Height, CenterVertically, ReplaceLastLine, SetLength and Squash are translated to Lean on every run (extract/go2lean2.go -> Generated/GoCode.lean) and proved equal to the model's functions (Props/Gen16.lean); and by differential correspondence; the height predicate is evaluated on every implementation output.",
         "design_ref": "DESIGN.md §5 C16",
         "note": "Trusted: Lean kernel; correspondence check (testing); strings.Split/Join/Count/Repeat/LastIndex as modelled on character lists.",
-        "technique": "Lean 4 proof (list lemmas on split/join) + differential correspondence",
+        "technique": "Lean 4 proof (list lemmas on split/join) over a model proved equal to the Lean translation of the layout functions regenerated on every run + differential correspondence",
     },
 }
 
